@@ -6,11 +6,14 @@ import (
 	"context"
 
 	"golang.org/x/sync/errgroup"
+
+	"github.com/tochemey/goakt/v4/internal/address"
 )
 
 func init() {
 	vRegister("vC09_stop", vC09_stop)
 	vRegister("vC09_treeOps", vC09_treeOps)
+	vRegister("vC09_spawnDuringStop", vC09_spawnDuringStop)
 }
 
 // ---- errgroup: Go runs the function at once (children are stopped one after the other; that the real group runs them
@@ -471,5 +474,116 @@ func vC09_treeOps() {
 		}
 	}
 	vAssert(tr.count() == int64(nreg), "count() is the number of registered actors")
+	vCover("end")
+}
+
+// ---- a spawn that lands inside the parent's stop ------------------------------------------------------------------
+// "when the stop returns no actor of the subtree is running or resolvable by name" must also hold when SpawnChild reaches the
+// parent after freeChildren took its snapshot of the children. The harness places that call at an arbitrary one of the moments
+// the parent's stop passes through code the harness owns: inside a child's PostStop (the parent is waiting in freeChildren),
+// inside the parent's own PostStop, or right after Shutdown returned. Real code: Shutdown/doStop as in vC09_stop, SpawnChild ->
+// spawnChildLocal (liveness guard, childAddress, findRunningChild). The materialization behind runSpawnActivation (newPID,
+// PreStart, completeSpawn) is replaced by its effect on the tree: a running actor registered under the parent with addNode.
+
+var (
+	vC09_spawnAt     int // 0 none, 1 in the child's PostStop, 2 in the parent's PostStop, 3 after Shutdown returned
+	vC09_spawnParent *PID
+	vC09_late        *PID // the actor admitted by the spawn (nil = refused)
+	vC09_spawnErr    error
+	vC09_spawnCalls  int
+)
+
+type vC09Spawner struct {
+	idx int
+	at  int
+}
+
+func (a *vC09Spawner) PreStart(*Context) error { return nil }
+func (a *vC09Spawner) Receive(*ReceiveContext) {}
+func (a *vC09Spawner) PostStop(*Context) error {
+	if vC09_nev < 8 {
+		vC09_events[vC09_nev] = a.idx
+	}
+	vC09_nev++
+	if vC09_spawnAt == a.at {
+		vC09_doSpawn()
+	}
+	return nil
+}
+
+func vC09_doSpawn() {
+	vC09_spawnCalls++
+	_, vC09_spawnErr = vC09_spawnParent.SpawnChild(context.Background(), "late", &vC09Actor{idx: 7})
+}
+
+// substituted for (*actorSystem).runSpawnActivation: the spawn was admitted; register a running actor under the parent
+func vC09_admitSpawn(x *actorSystem, ctx context.Context, key string, fn func() (*PID, error)) (*PID, error) {
+	cid := vC09_mkActor(x, "late", 7)
+	if err := x.tree().addNode(vC09_spawnParent, cid); err != nil {
+		return nil, err
+	}
+	x.tree().addWatcher(cid, x.deathWatch)
+	vC09_late = cid
+	return cid, nil
+}
+
+func vC09_spawnDuringStop() {
+	sys := vT_newSystem()
+	tr := sys.tree()
+	root, dw := vT_mkPID(sys, "root"), vT_mkPID(sys, "dw")
+	dw.setState(systemState, true)
+	sys.deathWatch = dw
+	vAssert(tr.addRootNode(root) == nil && tr.addNode(root, dw) == nil, "guardians register")
+	parent, child := vC09_mkActor(sys, "parent", 0), vC09_mkActor(sys, "child", 1)
+	parent.actor, child.actor = &vC09Spawner{idx: 0, at: 2}, &vC09Spawner{idx: 1, at: 1}
+	parent.address = address.New("parent", "sys", "host", 1)
+	vAssert(tr.addNode(root, parent) == nil && tr.addNode(parent, child) == nil, "parent and child register")
+	tr.addWatcher(parent, dw)
+	tr.addWatcher(child, dw)
+	vC09_spawnAt = vChoose("spawnAt", 4)
+	vC09_spawnParent, vC09_late, vC09_spawnErr, vC09_spawnCalls = parent, nil, nil, 0
+	vC09_nev, vC09_egTop, vT_sent = 0, 0, nil
+
+	vAssert(parent.Shutdown(context.Background()) == nil, "Shutdown succeeds")
+	if vC09_spawnAt == 3 {
+		vC09_doSpawn()
+	}
+	vAssert(vC09_nev == 2 && vC09_events[0] == 1 && vC09_events[1] == 0, "the child's PostStop completes before the parent's, each once")
+	vAssert(vC09_spawnCalls == btoi(vC09_spawnAt != 0), "harness: the spawn is attempted at the chosen moment")
+	vAssert(!parent.IsRunning() && !child.IsRunning(), "when the stop returns neither the parent nor its child is running")
+	// the clause the late spawn attacks: nothing below the stopped actor is running or registered afterwards
+	if vC09_late != nil {
+		vAssert(!vC09_late.IsRunning(), "an actor spawned under a parent whose stop is under way (or over) is not left running when the stop has returned")
+		vCover("late-spawn-admitted")
+	} else if vC09_spawnAt != 0 {
+		vAssert(vC09_spawnErr != nil, "a refused spawn reports an error")
+		vCover("late-spawn-refused")
+	}
+	// death watch clean-up, then the tree must not hold a live actor under a dead parent
+	for k := 0; k < 2; k++ {
+		if k < vC09_nev {
+			who := child
+			if vC09_events[k] == 0 {
+				who = parent
+			}
+			rctx := &ReceiveContext{self: dw, message: NewTerminated(who.Path())}
+			vAssert((&deathWatch{}).handleTerminated(rctx) == nil, "death watch handles Terminated")
+		}
+	}
+	_, pReg := tr.node(parent.ID())
+	_, cReg := tr.node(child.ID())
+	vAssert(!pReg && !cReg, "the stopped actors are no longer registered")
+	if vC09_late != nil {
+		n, ok := tr.node(vC09_late.ID())
+		vAssert(!ok || (n.parentNode != nil && n.parentNode.pid.Load() != nil), "no registered actor is left with a dead parent")
+	}
+	switch vC09_spawnAt {
+	case 1:
+		vCover("spawn-while-parent-waits-for-children")
+	case 2:
+		vCover("spawn-in-parent-poststop")
+	case 3:
+		vCover("spawn-after-stop")
+	}
 	vCover("end")
 }
